@@ -37,7 +37,8 @@ Proof.
     cbn [sreply_frame]. rewrite replyOverhead_eq. repeat split; try lia; discriminate.
 Qed.
 
-(** *** Rread on an xattr fid: same bound, no panic *)
+(** *** Rread on an xattr fid: same bound, and no panic for ANY offset (in particular the whole
+    uint64 range) and any count *)
 Theorem xread_fits m count off vlen :
   11 <= m ->
   sreply_frame (txread_handle m count off vlen) <= m /\ txread_handle m count off vlen <> SPanic.
@@ -47,10 +48,17 @@ Proof.
   destruct (N.eqb_spec m 0); [lia|].
   destruct (N.eqb_spec count 0).
   { destruct (vlen =? 0); cbn [sreply_frame]; rewrite ?rlerrorFrame_eq, ?replyOverhead_eq; split; try lia; discriminate. }
-  destruct (N.ltb_spec vlen (off + count)); [cbn [sreply_frame]; rewrite rlerrorFrame_eq; split; [lia|discriminate]|].
+  destruct (N.ltb_spec vlen off); cbn [orb]; [cbn [sreply_frame]; rewrite rlerrorFrame_eq; split; [lia|discriminate]|].
+  destruct (N.ltb_spec (vlen - off) count); [cbn [sreply_frame]; rewrite rlerrorFrame_eq; split; [lia|discriminate]|].
   destruct (N.ltb_spec m (N.min count (m - 11))); [lia|].
   cbn [sreply_frame]. rewrite replyOverhead_eq. split; [lia|discriminate].
 Qed.
+
+(** the check as it was before 7f754bf let a wrapping Offset+Count through to buf[Offset:] *)
+Lemma xread_wrapping_refuted :
+  txread_handle_wrapping 4096 2 18446744073709551615 10 = SPanic /\
+  txread_handle 4096 2 18446744073709551615 10 = SRlerror EINVAL.
+Proof. split; vm_compute; reflexivity. Qed.
 
 Lemma rreaddir_payload_le count : forall sizes cum, cum <= count -> rreaddir_payload count cum sizes <= count.
 Proof.
@@ -181,3 +189,41 @@ Theorem readdir_end_to_end m count sizes :
   153 < m -> m < 4294967296 ->
   sreply_frame (treaddir_handle m (readdir_count m count) sizes) <= m.
 Proof. intros H1 H2. apply rreaddir_fits. lia. Qed.
+
+(** ** sessions: after any history of Tversions the msize in force is the last one announced *)
+Lemma run_hist_announced : forall h cs,
+  fst (run_hist cs h) = last_announced cs (snd (run_hist cs h)).
+Proof.
+  induction h as [|[m ok] r IH]; intros cs; [reflexivity|].
+  cbn [run_hist tversion_step].
+  destruct ((m =? 0) || negb ok) eqn:E.
+  - specialize (IH cs). destruct (run_hist cs r) as [cs2 l]. cbn [fst snd last_announced] in *. exact IH.
+  - specialize (IH (N.min m p9_maximumLength)). destruct (run_hist (N.min m p9_maximumLength) r) as [cs2 l].
+    cbn [fst snd last_announced] in *.
+    apply orb_false_iff in E. destruct E as [Em _]. apply N.eqb_neq in Em.
+    rewrite maxlen_eq in *. destruct (N.eqb_spec (N.min m 4194304) 0); [lia|]. exact IH.
+Qed.
+
+Lemma last_announced_le_max : forall l d, d <= 4194304 -> Forall (fun a => a <= 4194304) l -> last_announced d l <= 4194304.
+Proof.
+  induction l as [|a r IH]; intros d Hd Hl; [exact Hd|]. inversion Hl; subst. cbn [last_announced].
+  apply IH; [destruct (a =? 0); assumption|assumption].
+Qed.
+
+(** *** over histories: whatever Tversions came before (smaller, larger, refused ones in between),
+    every Rread / Rreaddir / xattr Rread fits the msize of the last Rversion that announced one *)
+Theorem session_fits h count avail off vlen sizes :
+  let cs := fst (run_hist 0 h) in
+  let ann := last_announced 0 (snd (run_hist 0 h)) in
+  11 <= ann ->
+  sreply_frame (tread_handle cs count avail) <= ann /\
+  sreply_frame (txread_handle cs count off vlen) <= ann /\
+  sreply_frame (treaddir_handle cs count sizes) <= ann /\
+  tread_handle cs count avail <> SPanic /\ txread_handle cs count off vlen <> SPanic.
+Proof.
+  cbn zeta. rewrite run_hist_announced. intros H.
+  pose proof (rread_fits _ count avail H) as (H1 & H2 & _).
+  pose proof (xread_fits _ count off vlen H) as (H3 & H4).
+  pose proof (rreaddir_fits _ count sizes H). tauto.
+Qed.
+
